@@ -49,6 +49,10 @@ ROWS = [
     (30, r"^C08-R5\|ClassDef\|ClassDef\.decorator_list|^C12-R1\|ClassDef\|decorators-dropped", "@deco\\nclass A: pass -> decorator not applied, no error", "fix 0018"),
     (31, r"^C17-R[23]\|", "400 consecutive assignments with the default options -> RecursionError (ast.unparse on a tree as deep as the block is long)", "known"),
     (32, r"^(C04-R4|C15-R2)\|(_Node\|two-quotes|Constant\|bytes)", "host 3.10/3.11: f'{b\"x\"}' -> f'{b'x'}'; nesting depth 3 re-uses the outer quote", "known"),
+    (38, r"^C06-R3\|Namespace(Function|Class)\|store:globals\|load:plain\|SHADOW$", "count = 0\\ndef make():\\n count = 10\\n class Counter:\\n  def bump(self):\\n   global count\\n   count += 1\\n   return count\\n return Counter().bump() + count\\nprint(make(), count)  -> prints 20 11 instead of 11 1 (the bare name of a declared-global variable is captured by the enclosing function's lambda)", "known"),
+    (39, r"^C06-R9\|PendingComp\|outermost-iterable-under-own-targets$", "def f():\\n x = [1, 2]\\n def g(): return x\\n return [x * 2 for x in x], g()  -> NameError: name 'x' is not defined (the outermost iterable is rewritten with the comprehension's own targets in force)", "known"),
+    (40, r"^C12-R9\|", "class Csv(Plugin): name = 'csv' with Plugin.__init_subclass__ registering cls.name -> AttributeError; descriptors' __set_name__ never called; class Stack(typing.Generic[T]) -> TypeError (MRO entry resolution); @classmethod def __init_subclass__ -> classmethod(classmethod(f)), TypeError on 3.8/3.13", "known"),
+    (41, r"^C14-R6\|", "package pkg with a.py: `from . import b` and b.py: `from . import a` (a legal circular import, run as python -m pkg) -> AttributeError after conversion; `from os import nope` -> AttributeError instead of ImportError", "known"),
     (37, r"^C12-R8\|", "class A:\\n __x = 1  /  def f(self): __t = 5  /  def __helper(self) -> KeyError during conversion; self.__x = 1 -> attribute `__x` instead of `_A__x`", "known"),
     (33, r"^C02-R2\|\w+\|[\w.]+\|index-tuple-with-slice", "a[1:2, 3] = 0 -> a.__setitem__((1:2, 3), 0), not an expression", "fix 0012"),
 ]
